@@ -402,6 +402,8 @@ class HistogramND(HistogramBase):
         if dropna:
             array_mask = ~np.isnan(values_array).any(axis=1)
             values_array = values_array[array_mask]
+        if values_array.shape[0] == 0:
+            return  # Nothing to add (adaptive binnings may not even have a bin yet)
         if weights is not None:
             weights = extract_weights(weights, array_mask=array_mask)
             # TODO: Check for weights size?
